@@ -267,8 +267,42 @@ class Engine(w_fsa.Engine):
             worst = max(worst, nb)
         return worst ** L
 
+    def _gen_enum_for_memo(self, rng, world):
+        """an enumeration crafted to fit a memo that is still valid (same option class)"""
+        cfg = world.cfg
+        valid = []
+        for m, v in sorted(world.memos.items()):
+            rid, rver, hid, hver, maxlen, with_words, mode, edge_words = v[1]
+            if rid in world.reps and world.reps[rid].version == rver and hid in world.handles \
+                    and world.fsa_version[hid] == hver:
+                valid.append(m)
+        if not valid:
+            return None
+        m = rng.choice(valid)
+        rid, rver, hid, hver, maxlen, with_words, mode, edge_words = world.memos[m][1]
+        h, rh = world.handles[hid], world.reps[rid]
+        Vl = sorted(h.V, key=w_fsa.vkey)
+        if not Vl or not self._labels_ok(rh, h, edge_words):
+            return None
+        L = rng.randint(0, cfg["Lmax"])
+        deg = max([1] + [sum(1 for e in h.E if e[0] == v) for v in h.V] +
+                  [sum(1 for e in h.E if e[1] == v) for v in h.V])
+        while L > 0 and (deg ** L > 1500 or self._norm_bound(rh, h, edge_words, L) > 1e11):
+            L -= 1
+        if h.big:
+            L = min(L, 3)
+        state = rng.choice(Vl)
+        if mode == "start" and h.S and h.S[0] in h.V and rng.random() < 0.3:
+            mode, state = "default", None
+        return {"op": "enum", "rep": rid, "h": hid, "L": L, "maxlen": maxlen, "with_words": with_words,
+                "mode": mode, "state": state, "edge_words": edge_words, "memo": m}
+
     def _gen_enum(self, rng, world):
         cfg = world.cfg
+        if world.memos and rng.random() < cfg["memo_rate"] * 0.6:
+            op = self._gen_enum_for_memo(rng, world)
+            if op is not None:
+                return op
         h = self._pick(rng, world, small=False)
         if h is None:
             return None
